@@ -123,4 +123,41 @@ def run(V, repo, rng, n_ops=260, kinds=("single", "coords", "lookup", "pixel", "
                      n_preceding=i),
                 dict(reference_in_fresh_process=ref[(cs, kind)].get(bad[0])), dict(observed=got.get(bad[0])), True)
             break
+    # two enumerations alive at the same time (generators advanced in turn): each must still deliver
+    # exactly its own tiles
+    if "enum" in kinds:
+        for trial in range(3):
+            ca, cb = (systems[0], systems[1]) if trial != 1 else (systems[1], systems[1])
+            ga = toast.generate_tiles(3, bottom_only=False, coordsys=toast.ToastCoordinateSystem(ca))
+            if trial == 2:
+                gb = toast.generate_tiles_filtered(3, lambda t: True, bottom_only=False, coordsys=toast.ToastCoordinateSystem(cb))
+            else:
+                gb = toast.generate_tiles(3, bottom_only=False, coordsys=toast.ToastCoordinateSystem(cb))
+            got = {0: {}, 1: {}}
+            live = [0, 1]
+            gens = {0: ga, 1: gb}
+            err = None
+            while live:
+                k = rng.choice(live)
+                try:
+                    for _ in range(rng.randint(1, 5)):
+                        t = next(gens[k])
+                        got[k][json.dumps(list(map(int, t.pos)))] = tile_sig(t)
+                except StopIteration:
+                    live.remove(k)
+                except Exception as e:  # noqa
+                    err = repr(e)
+                    break
+            done += 1
+            for k, cs in ((0, ca), (1, cb)):
+                if err is not None or got[k] != ref[(cs, "enum")]:
+                    miss = sorted(set(ref[(cs, "enum")]) - set(got[k]))[:3]
+                    wrong = [q for q in got[k] if ref[(cs, "enum")].get(q) != got[k][q]][:3]
+                    V.disagreement(
+                        f"history independence of the TOAST geometry API ({label}): two tile enumerations advanced in turn "
+                        f"do not each deliver their own tiles",
+                        dict(part="history", interleaved=[ca, cb], filtered_second=(trial == 2)),
+                        dict(tiles=len(ref[(cs, "enum")])),
+                        dict(delivered=len(got[k]), missing=miss, wrong=wrong, error=err), True)
+                    return done
     return done
